@@ -11,6 +11,7 @@
   Before the D11 repair (commit 1e22873) `multihasher_refines_stream` was false
   (`d11_old_code_did_not_refine`).
 -/
+import BtcVerif.Props.GuardPins.P_bhash
 import BtcVerif.Proofs.MultiHasher
 
 namespace BtcVerif.Props.C20
